@@ -1,8 +1,8 @@
 (* C14 — Curve, field and pairing arithmetic equal the mathematical operations.
    Property theorems only; proofs are in proofs/Curve_proofs.v, proofs/ScalarMul_proofs.v.
 
-   The straight-line programs W_Add W_Double W_Neg W_Equal W_IsZero W_SetAffine W_ToAffine
-   (weierstrass.go), E_Add E_Double E_Neg E_Equal E_IsZero E_ToAffine (edwards.go),
+   The straight-line programs W_Add W_Double W_Neg W_Sub W_Equal W_IsZero W_SetAffine W_ToAffine
+   (weierstrass.go), E_Add E_Double E_Neg E_Sub E_Equal E_IsZero E_ToAffine (edwards.go),
    Q_Mul Q_Square C_Mul C_Square (quadratic.go, cubic.go) are gen/Formulas.v, REGENERATED from
    the current source on every run; the statements below are about those definitions, for an
    arbitrary field K with laws (flaws K) and arbitrary curve parameters.
@@ -33,8 +33,8 @@ Theorem C14_w_add_correct : forall (F : Type) (K : fops F), flaws K -> forall a 
   fadd K (f1 K) (f1 K) <> f0 K -> fadd K (fadd K (f1 K) (f1 K)) (f1 K) <> f0 K ->
   no_two_torsion K a b ->
   forall P Q : F * F * F, valid K a b P -> valid K a b Q ->
-  valid K a b (w_add K a b P Q) /\
-  w_to_affine K (w_add K a b P Q) = waff_add K a (w_to_affine K P) (w_to_affine K Q).
+  valid K a b (proj_add K a b P Q) /\
+  w_to_affine K (proj_add K a b P Q) = waff_add K a (w_to_affine K P) (w_to_affine K Q).
 Proof. exact @w_add_correct. Qed.
 Print Assumptions C14_w_add_correct.
 
@@ -42,19 +42,29 @@ Theorem C14_w_double_correct : forall (F : Type) (K : fops F), flaws K -> forall
   fadd K (f1 K) (f1 K) <> f0 K -> fadd K (fadd K (f1 K) (f1 K)) (f1 K) <> f0 K ->
   no_two_torsion K a b ->
   forall P : F * F * F, valid K a b P ->
-  valid K a b (w_double K a b P) /\
-  w_to_affine K (w_double K a b P) = waff_double K a (w_to_affine K P).
+  valid K a b (proj_double K a b P) /\
+  w_to_affine K (proj_double K a b P) = waff_double K a (w_to_affine K P).
 Proof. exact @w_double_correct. Qed.
 Print Assumptions C14_w_double_correct.
 
+(* Sub is regenerated as Neg followed by Add *)
+Theorem C14_w_sub_correct : forall (F : Type) (K : fops F), flaws K -> forall a b : F,
+  fadd K (f1 K) (f1 K) <> f0 K -> fadd K (fadd K (f1 K) (f1 K)) (f1 K) <> f0 K ->
+  no_two_torsion K a b ->
+  forall P Q : F * F * F, valid K a b P -> valid K a b Q ->
+  valid K a b (proj_sub K a b P Q) /\
+  w_to_affine K (proj_sub K a b P Q) = waff_sub K a (w_to_affine K P) (w_to_affine K Q).
+Proof. exact @w_sub_correct. Qed.
+Print Assumptions C14_w_sub_correct.
+
 Theorem C14_add_preserves_curve : forall (F : Type) (K : fops F), flaws K ->
   forall (a b : F) (P Q : F * F * F),
-  proj_on K a b P -> proj_on K a b Q -> proj_on K a b (w_add K a b P Q).
+  proj_on K a b P -> proj_on K a b Q -> proj_on K a b (proj_add K a b P Q).
 Proof. exact @add_preserves_curve. Qed.
 Print Assumptions C14_add_preserves_curve.
 
 Theorem C14_dbl_preserves_curve : forall (F : Type) (K : fops F), flaws K ->
-  forall (a b : F) (P : F * F * F), proj_on K a b P -> proj_on K a b (w_double K a b P).
+  forall (a b : F) (P : F * F * F), proj_on K a b P -> proj_on K a b (proj_double K a b P).
 Proof. exact @dbl_preserves_curve. Qed.
 Print Assumptions C14_dbl_preserves_curve.
 
@@ -119,13 +129,13 @@ Proof. exact @add_nondegenerate. Qed.
 Print Assumptions C14_add_nondegenerate.
 
 Theorem C14_neg_agrees : forall (F : Type) (K : fops F), flaws K -> forall P : F * F * F,
-  w_to_affine K (w_neg K P) = waff_neg K (w_to_affine K P).
+  w_to_affine K (proj_neg K P) = waff_neg K (w_to_affine K P).
 Proof. exact @neg_agrees. Qed.
 Print Assumptions C14_neg_agrees.
 
 Theorem C14_equal_iff_same_affine : forall (F : Type) (K : fops F), flaws K ->
   forall (a b : F) (P Q : F * F * F), valid K a b P -> valid K a b Q ->
-  (w_equal K P Q = true <-> w_to_affine K P = w_to_affine K Q).
+  (proj_equal K P Q = true <-> w_to_affine K P = w_to_affine K Q).
 Proof. exact @equal_iff_same_affine. Qed.
 Print Assumptions C14_equal_iff_same_affine.
 
@@ -159,6 +169,15 @@ Theorem C14_ed_double_correct : forall (F : Type) (K : fops F), flaws K -> foral
   e_to_affine K (e_double K a P) = eaff_double K a d (e_to_affine K P).
 Proof. exact @e_double_correct. Qed.
 Print Assumptions C14_ed_double_correct.
+
+Theorem C14_ed_sub_correct : forall (F : Type) (K : fops F), flaws K -> forall a d : F,
+  fadd K (f1 K) (f1 K) <> f0 K -> (forall r : F, fmul K r r <> d) ->
+  forall s : F, fmul K s s = a ->
+  forall P Q : F * F * F * F, e_valid K a d P -> e_valid K a d Q ->
+  e_valid K a d (e_sub K a d P Q) /\
+  e_to_affine K (e_sub K a d P Q) = eaff_sub K a d (e_to_affine K P) (e_to_affine K Q).
+Proof. exact @e_sub_correct. Qed.
+Print Assumptions C14_ed_sub_correct.
 
 Theorem C14_ed_add_preserves_curve : forall (F : Type) (K : fops F), flaws K ->
   forall (a d : F) (P Q : F * F * F * F),
@@ -273,7 +292,7 @@ Example C14_weierstrass_hypotheses_satisfiable :
   flaws F7ops /\ fadd F7ops A1 A1 <> A0 /\ fadd F7ops (fadd F7ops A1 A1) A1 <> A0 /\
   no_two_torsion F7ops A0 A2 /\ valid F7ops A0 A2 (A3, A1, A1) /\ valid F7ops A0 A2 (A0, A3, A1) /\
   valid F7ops A0 A2 (A0, A1, A0) /\
-  w_to_affine F7ops (w_add F7ops A0 A2 (A3, A1, A1) (A0, A3, A1)) = Some (A6, A1).
+  w_to_affine F7ops (proj_add F7ops A0 A2 (A3, A1, A1) (A0, A3, A1)) = Some (A6, A1).
 Proof.
   split; [exact F7laws|]. split; [discriminate|]. split; [discriminate|].
   split; [intros []; discriminate|].
